@@ -677,6 +677,22 @@ class Unit:
                     m_ = self._align_anchor(st, pat, spec)
                     if m_ is not None and m_[0] > body_open and m_[1] < body_close:
                         hits = [m_]
+                        # the aligned statement is the anchor with identifiers renamed (token for token): the hint follows that
+                        # LOCAL renaming (a name may be renamed differently in different branches, which no global map expresses)
+                        new_toks = st[m_[0]:m_[1] + 1]
+                        if len(new_toks) == len(pat):
+                            loc_ren = {}
+                            okr = True
+                            for a_, b_ in zip(pat, new_toks):
+                                if a_ == b_.text:
+                                    continue
+                                if b_.kind != "ident" or not re.match(r"^[A-Za-z_][A-Za-z_0-9]*$", a_) or loc_ren.get(a_, b_.text) != b_.text:
+                                    okr = False
+                                    break
+                                loc_ren[a_] = b_.text
+                            if okr and loc_ren:
+                                body = rename_idents(body, loc_ren)
+                                info.setdefault("alpha_renamed", {}).setdefault(sid_base + " (hint at `%s`)" % arg, {}).update(loc_ren)
                     else:
                         hits = fuzzy_find(st, pat, body_open, body_close)
                         if len(hits) > 1:
